@@ -18,6 +18,7 @@ def run(ctx, rep):
     e10_cli.run(facts, rep, 'i64', harness.REPO)
     e10_cli.check_name_grammar(facts, rep, harness.REPO)
     e10_cli.check_pair_order(facts, rep)
+    e10_cli.check_bigraded_decision(facts, rep)
     rep.rule('E28', e28_rmodstr.__doc__.strip().split('\n')[0])
     e28_rmodstr.run(facts, rep)
     e28_rmodstr.check_cell_placement(facts, rep)
